@@ -156,6 +156,7 @@ Proof.
   - apply find_key_validate.
   - apply find_key_expire.
   - reflexivity.
+  - reflexivity.
 Qed.
 
 Lemma key_state_snoc ops op ph id : key_state (ops ++ [op]) ph id = kstep ph id (key_state ops ph id) op.
@@ -239,6 +240,7 @@ Proof.
     + apply inv_validate; auto.
     + apply inv_expire; auto.
     + destruct IH as [Hnd Hall]. split; auto. intros e He. apply origin_snoc; auto.
+    + split; [constructor|intros e []].
 Qed.
 
 (* ------------------------------------------------------------------ the view *)
@@ -324,33 +326,34 @@ Qed.
 
 (* ------------------------------------------------------------------ the ghost in words *)
 Lemma vsince_snoc ops ph id op :
-  validated_since ops ph id -> op <> Expire ph id -> validated_since (ops ++ [op]) ph id.
+  validated_since ops ph id -> op <> Expire ph id -> op <> ExpireAll -> validated_since (ops ++ [op]) ph id.
 Proof.
-  intros (a & r & b & -> & Hb) Hop. exists a, r, (b ++ [op]). split.
+  intros (a & r & b & -> & Hb) Hop Hop'. exists a, r, (b ++ [op]). split.
   - rewrite <- app_assoc. reflexivity.
   - intros o Ho. apply in_app_or in Ho as [Ho|[<-|[]]]; auto.
 Qed.
 
 Lemma kstep_valid_cases ph id s op n :
   kstep ph id s op = Some (n, true) ->
-  (exists r, op = Validate ph id r) \/ (s = Some (n, true) /\ op <> Expire ph id).
+  (exists r, op = Validate ph id r) \/ (s = Some (n, true) /\ op <> Expire ph id /\ op <> ExpireAll).
 Proof.
-  destruct op as [ph' id' r|ph' id' r|ph' id'|]; cbn [kstep].
+  destruct op as [ph' id' r|ph' id' r|ph' id'| |]; cbn [kstep].
   - destruct (key_is ph id ph' id') eqn:K.
-    + destruct s as [[m v]|]; [|discriminate]. intros [= -> ->]. right. split; auto. discriminate.
-    + intros ->. right. split; auto. discriminate.
+    + destruct s as [[m v]|]; [|discriminate]. intros [= -> ->]. right. split; auto. split; discriminate.
+    + intros ->. right. split; auto. split; discriminate.
   - destruct (key_is ph id ph' id') eqn:K.
     + apply key_is_spec in K as [-> ->]. intros _. left. eauto.
-    + intros ->. right. split; auto. discriminate.
-  - destruct (key_is ph id ph' id') eqn:K; [discriminate|]. intros ->. right. split; auto.
+    + intros ->. right. split; auto. split; discriminate.
+  - destruct (key_is ph id ph' id') eqn:K; [discriminate|]. intros ->. right. split; auto. split; [|discriminate].
     intros E. inversion E; subst. unfold key_is in K. rewrite N.eqb_refl, bytes_eqb_refl in K. discriminate.
-  - intros ->. right. split; auto. discriminate.
+  - intros ->. right. split; auto. split; discriminate.
+  - discriminate.
 Qed.
 
 Lemma live_needs_validate ops ph id : validated_live ops ph id -> validated_since ops ph id.
 Proof.
   intros (n & H). revert n H. induction ops as [|op ops IH] using rev_ind; intros n H; [discriminate|].
-  rewrite key_state_snoc in H. apply kstep_valid_cases in H as [(r & ->)|[H Hop]].
+  rewrite key_state_snoc in H. apply kstep_valid_cases in H as [(r & ->)|(H & Hop & Hop')].
   - exists ops, r, []. split; [reflexivity|]. intros o [].
   - apply vsince_snoc; eauto.
 Qed.
@@ -361,13 +364,20 @@ Proof.
 Qed.
 
 Lemma other_phantom_irrelevant ops ph id op :
-  (forall r, op <> Track ph id r) -> (forall r, op <> Validate ph id r) -> op <> Expire ph id ->
+  (forall r, op <> Track ph id r) -> (forall r, op <> Validate ph id r) -> op <> Expire ph id -> op <> ExpireAll ->
   key_state (ops ++ [op]) ph id = key_state ops ph id.
 Proof.
-  intros H1 H2 H3. rewrite key_state_snoc.
-  destruct op as [ph' id' r|ph' id' r|ph' id'|]; cbn [kstep]; auto;
+  intros H1 H2 H3 H4. rewrite key_state_snoc.
+  destruct op as [ph' id' r|ph' id' r|ph' id'| |]; cbn [kstep]; auto; [| | |exfalso; apply H4; reflexivity];
     destruct (key_is ph id ph' id') eqn:K; auto; apply key_is_spec in K as [-> ->]; exfalso.
   - eapply H1; reflexivity.
   - eapply H2; reflexivity.
   - apply H3; reflexivity.
 Qed.
+
+Lemma expire_all_kills ops ph id : key_state (ops ++ [ExpireAll]) ph id = None.
+Proof. rewrite key_state_snoc. reflexivity. Qed.
+
+Lemma expire_all_forgets ops ph id :
+  key_state (ops ++ [ExpireAll]) ph id = None /\ get_regs (run (ops ++ [ExpireAll])) ph = [].
+Proof. split; [apply expire_all_kills|rewrite run_snoc; reflexivity]. Qed.
